@@ -108,4 +108,12 @@ CHECKS = {
         "design_ref": "DESIGN.md section 3, C05",
         "note": "Known finding K1 (sequential mode + dask + >=2 parameters) is excluded from the generator and probed separately. The dask path's single metadata run is subtracted.",
     },
+    "C06": {
+        "technique": "differential property-based testing: each run of a generated sweep against a standalone exposure the harness builds from the JSON spec; deep structural before/after snapshots of the caller's objects; pipelines with state-keeping, argument-mutating and failing models",
+        "text": "Generated sweeps (product / sequential / custom; sequential and dask path; 1..3 steps; destructive or not; caller's detector optionally carrying memory and bucket contents; optionally one failing run) "
+                "run over a pipeline with a detector-memory probe, an in-place argument mutator and the library's simple_persistence. Every run's pixel/signal/image entry must equal the standalone exposure with "
+                "that run's values, failing runs must not affect their neighbours on the dask path, and the snapshot of detector, pipeline, readout and mode must be unchanged after the call, also when it raised. Exploration.",
+        "design_ref": "DESIGN.md section 3, C06",
+        "note": "Calibration isolation is exercised in C10/C11's run-level parts (snapshot before/after). K1 class excluded as in C05.",
+    },
 }
